@@ -63,3 +63,96 @@ Proof.
     destruct (Z.eqb_spec (L mod 2) 1); destruct (Z.eqb_spec (L mod 2) 0); cbn [length andb];
     Z.div_mod_to_equations; lia.
 Qed.
+
+(* ---------------------------------------------------------------- *)
+(* Except on odd periodic chains the gates of one sweep act on pairwise
+   disjoint sites: they commute, so executing two adjacent sweeps of the same
+   direction as one sweep with the summed time (the queue's merge rule, the
+   normal form `normr` of the theorems) does not change the operator.  On odd
+   periodic chains (0,1) and (L-1,0) share site 0 - the colouring is not a
+   splitting into commuting layers there. *)
+From Coq Require Import Permutation.
+
+Definition sites_of_bonds (l : list (Z * Z)) : list Z := flat_map (fun b => [fst b; snd b]) l.
+
+Lemma even_sites n : flat_map (fun k => [2 * Z.of_nat k; 2 * Z.of_nat k + 1]) (seq 0 n)
+                     = map Z.of_nat (seq 0 (2 * n)).
+Proof.
+  induction n as [|n IH]; [reflexivity|].
+  rewrite seq_S, flat_map_app, IH. cbn [flat_map app Nat.add].
+  replace (2 * S n)%nat with (S (S (2 * n))) by lia.
+  rewrite !seq_S, !map_app. cbn [map Nat.add]. rewrite <- app_assoc. cbn [app].
+  f_equal. f_equal; [lia|]. f_equal. lia.
+Qed.
+
+Lemma NoDup_map_of_nat (f : nat -> Z) (l : list nat) : (forall a b, f a = f b -> a = b) -> NoDup l -> NoDup (map f l).
+Proof.
+  intros Hinj. induction 1 as [|x r Hx Hr IH]; cbn; constructor; [|exact IH].
+  intros Hin. apply in_map_iff in Hin as (y & Hy & Hin). apply Hinj in Hy. subst. exact (Hx Hin).
+Qed.
+
+Lemma sites_map_ext (f g : nat -> Z * Z) l : (forall k, In k l -> f k = g k) ->
+  sites_of_bonds (map f l) = sites_of_bonds (map g l).
+Proof. intros H. rewrite (map_ext_in f g l H). reflexivity. Qed.
+
+Lemma right_sites c : 2 <= cL c -> (cCyc c = true -> (cL c) mod 2 = 0) ->
+  sites_of_bonds (right_bonds c) = map Z.of_nat (seq 0 (2 * Z.to_nat (cL c / 2))).
+Proof.
+  intros HL Hc. unfold right_bonds. set (L := cL c) in *.
+  assert (E : (L mod 2 =? 1) && cCyc c = false).
+  { destruct (cCyc c); [|apply andb_false_r]. rewrite (Hc eq_refl). reflexivity. }
+  rewrite E, app_nil_r.
+  rewrite (sites_map_ext _ (fun k => (2 * Z.of_nat k, 2 * Z.of_nat k + 1))).
+  - unfold sites_of_bonds. rewrite flat_map_concat_map, map_map, <- flat_map_concat_map. cbn [fst snd].
+    apply even_sites.
+  - intros k Hk. apply in_seq in Hk. f_equal. apply Z.mod_small.
+    assert (Hq : 0 <= L / 2) by (apply Z.div_pos; lia).
+    assert (Z.of_nat k < L / 2) by (rewrite <- (Z2Nat.id (L / 2)) by exact Hq; apply Nat2Z.inj_lt; lia).
+    Z.div_mod_to_equations. lia.
+Qed.
+
+Theorem right_sweep_gates_disjoint c : 2 <= cL c -> (cCyc c = true -> (cL c) mod 2 = 0) ->
+  NoDup (sites_of_bonds (bonds c Right)).
+Proof.
+  intros HL Hc. cbn [bonds]. rewrite (right_sites c HL Hc).
+  apply NoDup_map_of_nat; [intros a b; apply Nat2Z.inj|apply seq_NoDup].
+Qed.
+
+Lemma odd_sites n : flat_map (fun k => [2 * Z.of_nat k + 1; 2 * Z.of_nat k + 2]) (seq 0 n)
+                    = map (fun i => Z.of_nat i + 1) (seq 0 (2 * n)).
+Proof.
+  induction n as [|n IH]; [reflexivity|].
+  rewrite seq_S, flat_map_app, IH. cbn [flat_map app Nat.add].
+  replace (2 * S n)%nat with (S (S (2 * n))) by lia.
+  rewrite !seq_S, !map_app. cbn [map Nat.add]. rewrite <- app_assoc. cbn [app].
+  f_equal. f_equal; [lia|]. f_equal. lia.
+Qed.
+
+Theorem left_sweep_gates_disjoint c : 2 <= cL c -> NoDup (sites_of_bonds (bonds c Left)).
+Proof.
+  intros HL. cbn [bonds]. unfold left_bonds. set (L := cL c) in *.
+  set (m := Z.to_nat ((L - 1) / 2)).
+  assert (Hm : Z.of_nat m = (L - 1) / 2) by (apply Z2Nat.id; apply Z.div_pos; lia).
+  (* the odd bonds, in any order, cover sites 1 .. 2m *)
+  assert (P : Permutation (sites_of_bonds (rev (map (fun k => (2 * Z.of_nat k + 1, (2 * Z.of_nat k + 2) mod L)) (seq 0 m))))
+                          (map (fun i => Z.of_nat i + 1) (seq 0 (2 * m)))).
+  { unfold sites_of_bonds. eapply Permutation_trans.
+    - apply Permutation_flat_map. apply Permutation_sym, Permutation_rev.
+    - rewrite (map_ext_in _ (fun k => (2 * Z.of_nat k + 1, 2 * Z.of_nat k + 2))).
+      + rewrite flat_map_concat_map, map_map, <- flat_map_concat_map. cbn [fst snd]. rewrite odd_sites. apply Permutation_refl.
+      + intros k Hk. apply in_seq in Hk. f_equal. apply Z.mod_small.
+        assert (Z.of_nat k < (L - 1) / 2) by lia. Z.div_mod_to_equations. lia. }
+  assert (N : NoDup (map (fun i => Z.of_nat i + 1) (seq 0 (2 * m)))).
+  { apply NoDup_map_of_nat; [intros a b H; lia|apply seq_NoDup]. }
+  destruct (cCyc c && (L mod 2 =? 0)) eqn:E.
+  - apply andb_true_iff in E as [_ E]. apply Z.eqb_eq in E.
+    unfold sites_of_bonds. cbn [flat_map app fst snd]. fold (sites_of_bonds (rev (map (fun k => (2 * Z.of_nat k + 1, (2 * Z.of_nat k + 2) mod L)) (seq 0 m)))).
+    assert (R : forall x, In x (sites_of_bonds (rev (map (fun k => (2 * Z.of_nat k + 1, (2 * Z.of_nat k + 2) mod L)) (seq 0 m)))) -> 1 <= x <= L - 2).
+    { intros x Hx. apply (Permutation_in _ P) in Hx. apply in_map_iff in Hx as (i & <- & Hi). apply in_seq in Hi.
+      Z.div_mod_to_equations. lia. }
+    constructor; [|constructor].
+    + intros [H|H]; [lia|]. apply R in H. lia.
+    + intros H. apply R in H. lia.
+    + eapply Permutation_NoDup; [apply Permutation_sym; exact P|exact N].
+  - cbn [app]. eapply Permutation_NoDup; [apply Permutation_sym; exact P|exact N].
+Qed.
